@@ -56,8 +56,17 @@ DinucInstances == <<
     M("user:Dinucleotide:monomer",     2, "monomer",     << <<"kappa", R(3,1)>> >>, Pi1(1,2,3,4), TRUE, TRUE, "k3"),
     M("user:Dinucleotide:conditional", 2, "conditional", << <<"kappa", R(3,1)>> >>, PiDinuc, TRUE, TRUE, "k3")
 >>
-AllInstances == NucInstances \o CodonInstances \o DinucInstances
-QuickInstances == NucInstances \o <<CodonInstances[1], CodonInstances[3], CodonInstances[5]>> \o DinucInstances
+Pi3(a, b, c) ==   \* three per-position distributions, each <<t,c,a,g>>
+    [kk \in {"0", "1", "2"} \X NucSet |->
+        LET v == CASE kk[1] = "0" -> a [] kk[1] = "1" -> b [] kk[1] = "2" -> c
+            d == v[1] + v[2] + v[3] + v[4]
+        IN  R(v[NIdx(kk[2])], d)]
+PsInstances == <<
+    M("user:Codon:monomers", 3, "monomers", << <<"kappa", R(3,1)>>, <<"omega", R(1,2)>> >>,
+      Pi3(<<1,2,3,4>>, <<2,1,1,1>>, <<1,1,2,2>>), TRUE, TRUE, "k3w")
+>>
+AllInstances == NucInstances \o CodonInstances \o DinucInstances \o PsInstances
+QuickInstances == NucInstances \o <<CodonInstances[1], CodonInstances[3], CodonInstances[5]>> \o DinucInstances \o PsInstances
 CnfOnly == <<CodonInstances[5]>>
 CnfGtrOnly == <<CodonInstances[6]>>
 =============================================================================
